@@ -180,7 +180,8 @@ def check_delegation_subset(rep, f, names, rule="R16s"):
             continue
         inst = "%s::%s" % (tr, b.name)
         try:
-            t = H.tree_of(f, b, "op", inline_private=False)
+            twin = "<TwoFloat as num_traits::%s>::%s" % ("float::FloatCore" if tr == "Float" else "Float", b.name) if tr in ("Float", "FloatCore") else None
+            t = H.tree_of(f, b, "op", inline_private=False, inline_extra=((twin,) if twin and f.get(twin) is not None else ()))
         except vg.Unsupported as u:
             rep.fail(rule, inst, "unsupported:" + inst, "cannot evaluate %s: %s" % (inst, u), where=H.where(b)); continue
         exp = mk("call", inh, *[P(i) for i in range(b.mir["arg_count"])])
@@ -208,7 +209,9 @@ def check_delegation(rep, f):
                 continue
         inst = "%s::%s" % (tr, name)
         try:
-            t = H.tree_of(f, b, "op", inline_extra=("<TwoFloat as core::default::Default>::default",))
+            # (a Float method may forward to its FloatCore twin or the reverse: the twin is read in place)
+            twin = "<TwoFloat as num_traits::%s>::%s" % ("float::FloatCore" if tr == "Float" else "Float", name) if tr in ("Float", "FloatCore") else None
+            t = H.tree_of(f, b, "op", inline_extra=("<TwoFloat as core::default::Default>::default",) + ((twin,) if twin and f.get(twin) is not None else ()))
         except vg.Unsupported as u:
             rep.fail("R16", inst, "unsupported:" + inst, "cannot evaluate %s: %s" % (inst, u), where=H.where(b)); continue
         if tr in ("Float", "FloatCore"):
